@@ -11,6 +11,7 @@ package main
 import (
 	"go/ast"
 	"go/token"
+	"sort"
 	"strconv"
 	"strings"
 )
@@ -105,6 +106,44 @@ func init() {
 		sendEmitExpect(sp, "exp_noop", "Client.Noop")
 		sendEmitExpect(sp, "exp_quit", "Client.Quit")
 		sendEmitExpect(sp, "exp_starttls", "Client.StartTLS")
+
+		// the EHLO keywords the code consults: Extension("...") calls (both packages) and c.ext["..."] lookups (smtp)
+		extNames := map[string]bool{}
+		for _, pk := range []*pkg{p, sp} {
+			for _, f := range pk.files {
+				ast.Inspect(f, func(x ast.Node) bool {
+					switch n := x.(type) {
+					case *ast.CallExpr:
+						if se, ok := n.Fun.(*ast.SelectorExpr); ok && se.Sel.Name == "Extension" && len(n.Args) == 1 {
+							if bl, ok := n.Args[0].(*ast.BasicLit); ok && bl.Kind == token.STRING {
+								if v, err := strconv.Unquote(bl.Value); err == nil {
+									extNames[strings.ToUpper(v)] = true
+								}
+							}
+						}
+					case *ast.IndexExpr:
+						if strings.HasSuffix(pk.src(n.X), ".ext") || pk.src(n.X) == "ext" {
+							if bl, ok := n.Index.(*ast.BasicLit); ok && bl.Kind == token.STRING {
+								if v, err := strconv.Unquote(bl.Value); err == nil {
+									extNames[v] = true
+								}
+							}
+						}
+					}
+					return true
+				})
+			}
+		}
+		var extList []string
+		for k := range extNames {
+			extList = append(extList, k)
+		}
+		sort.Strings(extList)
+		extItems := make([]string, len(extList))
+		for i, n := range extList {
+			extItems[i] = coqBytes(n)
+		}
+		emit("(* EHLO keywords consulted by the code (Extension(...) / ext[...]), sorted: %s *)\nDefinition consulted_extensions : list (list N) :=\n  [%s].\n", strings.Join(extList, " "), strings.Join(extItems, ";\n   "))
 
 		// dataCloser.Close reads the reply to the end of the mail data with ReadResponse (all lines of a multi-line
 		// reply), not with ReadCodeLine (first line only: the rest would be taken for the next command's reply)
